@@ -6,7 +6,7 @@ CONSTANTS
   Muteds = {FALSE}
   Kinds = {"Mistake", "Compliment"}
   Elses = {FALSE, TRUE}
-  Labels = {"a", "b"}
+  Labels = {"a", "B"}
   Flds = {"f1", "f2"}
   Corrects = {"F"}
   Valences = {"neg"}
